@@ -36,18 +36,18 @@ SPEC = dict(
                  "a runnable thread is scheduled within 4 s even when the machine is loaded (bounded waits; must reproduce 3/3)"],
     units=[
         pbt("c10_queues", "harness/c10_queues.cpp", dict(
-            bq_model=P(5000, 40000, 3, 8),
-            ring_model=P(5000, 40000, 4, 8),
-            bq_conc=P(120, 1500, 5, 16, extra=_NOSHRINK),
-            bq_wake=P(80, 1000, 4, 16, extra=_NOSHRINK),
+            bq_model=P(5000, 25000, 3, 4),
+            ring_model=P(5000, 25000, 4, 4),
+            bq_conc=P(120, 600, 5, 8, extra=_NOSHRINK),
+            bq_wake=P(80, 400, 4, 8, extra=_NOSHRINK),
         )),
         pbt("c10_spsc_asan", "harness/c10_spsc.cpp", dict(
-            spsc=P(150, 2000, 4, 8, extra=_NOSHRINK),
+            spsc=P(150, 1500, 4, 8, extra=_NOSHRINK),
         )),
         pbt("c10_tsan", "harness/c10_spsc.cpp", dict(
-            spsc=P(80, 1500, 8, 16, extra=_NOSHRINK),
-            bq_conc=P(40, 600, 4, 8, extra=_NOSHRINK),
-            bq_wake=P(25, 300, 4, 8, extra=_NOSHRINK),
+            spsc=P(80, 700, 8, 8, extra=_NOSHRINK),
+            bq_conc=P(40, 400, 4, 4, extra=_NOSHRINK),
+            bq_wake=P(25, 200, 4, 4, extra=_NOSHRINK),
         ), san="tsan", tsan_scope=["ring_buffer.hpp", "blocking_queue.hpp"]),
     ],
 )
